@@ -115,4 +115,72 @@ theorem Args.leavesAcc_eq : ∀ (a : Args A V) (acc : List Nat), a.leavesAcc acc
       simp [Args.leavesAcc, Args.operandsOf, View.leavesAcc_eq v, Args.leavesAcc_eq r acc, List.append_assoc]
 end
 
+/-! ### static arity of the extracted composition -/
+
+def sumArity (fs : List (Fn A V)) : Nat := (fs.map Fn.arity).sum
+
+theorem sumArity_append (xs ys : List (Fn A V)) : sumArity (xs ++ ys) = sumArity xs + sumArity ys := by
+  simp [sumArity]
+
+theorem Comp.arity_eq (fs : List (Fn A V)) (held : List V) :
+    Comp.arity ⟨fs, held⟩ = (sumArity fs : Int) - ((fs.length : Int) - 1) := by
+  have h : ∀ l : List (Fn A V), ((l.map (fun g => (g.arity : Int))).sum) = ((sumArity l : Nat) : Int) := by
+    intro l
+    induction l with
+    | nil => simp [sumArity]
+    | cons g t ih => simp only [List.map_cons, List.sum_cons, sumArity] at ih ⊢; rw [ih]; omega
+  simp [Comp.arity, h]
+
+theorem allLeaves_length : ∀ (r : Args A V), r.allLeaves = true → (Args.operandsOf r).length = r.length
+  | .nil, _ => rfl
+  | .cons (.leaf _) rest, h => by
+      simp only [Args.allLeaves] at h
+      simp [Args.operandsOf, View.operandsOf, Args.length, allLeaves_length rest h]; omega
+  | .cons (.node ..) _, h => by simp [Args.allLeaves] at h
+
+mutual
+/-- (sum of the functor arities) + 1 = (number of leaves) + (number of functors): every functor but the outermost hands
+    one result to its parent -/
+theorem View.sumArity_compile : ∀ (v : View A V), v.wellFormed = true →
+    sumArity v.compile + 1 = v.operandsOf.length + v.compile.length
+  | .leaf _, _ => by simp [View.compile, View.operandsOf, sumArity]
+  | .node f ats args, h => by
+      simp only [View.wellFormed, Bool.and_eq_true, beq_iff_eq] at h
+      have ih := Args.sumArity_compileRev args h.2
+      have hc : sumArity (⟨f.toFunctor, ats, []⟩ :: Args.compileRev args) = f.arity + sumArity (Args.compileRev args) := by
+        simp [sumArity, Fn.arity, VFun.toFunctor]
+      simp only [View.compile, View.operandsOf, List.length_cons, hc]
+      omega
+theorem Args.sumArity_compileRev : ∀ (a : Args A V), a.wellFormed = true →
+    sumArity (Args.compileRev a) + a.length = (Args.operandsOf a).length + (Args.compileRev a).length
+  | .nil, _ => by simp [Args.compileRev, Args.operandsOf, Args.length, sumArity]
+  | .cons v r, h => by
+      simp only [Args.wellFormed, Bool.and_eq_true] at h
+      have ih1 := View.sumArity_compile v h.1
+      have ih2 := Args.sumArity_compileRev r h.2
+      simp only [Args.compileRev, Args.operandsOf, Args.length, sumArity_append, List.length_append]
+      omega
+end
+
+mutual
+theorem View.leftLinear_wellFormed : ∀ (v : View A V), v.leftLinear = true → v.wellFormed = true
+  | .leaf _, _ => rfl
+  | .node f ats args, h => by
+      simp only [View.leftLinear, Bool.and_eq_true, beq_iff_eq] at h
+      simp only [View.wellFormed, Bool.and_eq_true, beq_iff_eq]
+      exact ⟨h.1, Args.leftLinear_wellFormed args h.2⟩
+theorem Args.leftLinear_wellFormed : ∀ (a : Args A V), a.leftLinear = true → a.wellFormed = true
+  | .nil, _ => rfl
+  | .cons v r, h => by
+      simp only [Args.leftLinear, Bool.and_eq_true] at h
+      simp only [Args.wellFormed, Bool.and_eq_true]
+      exact ⟨View.leftLinear_wellFormed v h.1, Args.allLeaves_wellFormed r h.2⟩
+theorem Args.allLeaves_wellFormed : ∀ (a : Args A V), a.allLeaves = true → a.wellFormed = true
+  | .nil, _ => rfl
+  | .cons (.leaf _) r, h => by
+      simp only [Args.allLeaves] at h
+      simp [Args.wellFormed, View.wellFormed, Args.allLeaves_wellFormed r h]
+  | .cons (.node ..) _, h => by simp [Args.allLeaves] at h
+end
+
 end NmVerif.Functional
